@@ -113,11 +113,14 @@ func (e *Engine) constToVal(c constant.Value, t types.Type) Val {
 }
 
 func (e *Engine) lookupIdent(cur *State, name string, env *SpecEnv) (Val, bool) {
-	if v, ok := env.vars[name]; ok {
+	dollar := strings.HasPrefix(name, "$")
+	if dollar {
+		name = name[1:]
+	} else if v, ok := env.vars[name]; ok {
 		return v, true
 	}
 	// named local of the root frame: the live cell with that name (latest allocation wins)
-	if env.fr != nil {
+	if env.fr != nil && (dollar || !env.localsOnlyDollar) {
 		best := -1
 		var bt types.Type
 		for a, id := range env.fr.cells {
@@ -137,6 +140,14 @@ func (e *Engine) lookupIdent(cur *State, name string, env *SpecEnv) (Val, bool) 
 		for r, v := range env.fr.regs {
 			if a, ok := r.(*ssa.Alloc); ok && a.Heap && a.Comment == name {
 				return e.load(cur, v, a.Type().Underlying().(*types.Pointer).Elem()), true
+			}
+		}
+		// declared in the function but not on this path: an arbitrary value of its type
+		for _, b := range env.fr.fn.Blocks {
+			for _, ins := range b.Instrs {
+				if a, ok := ins.(*ssa.Alloc); ok && a.Comment == name {
+					return e.freshVal(cur, "unalloc."+name, a.Type().Underlying().(*types.Pointer).Elem()), true
+				}
 			}
 		}
 	}
@@ -300,7 +311,25 @@ func (e *Engine) evalSpec(cur, old *State, x SExpr, env *SpecEnv) Val {
 			}
 			env.vars[v.Name] = bv
 		}
-		body := e.evalSpecBool(cur, old, n.Body, env)
+		// side facts produced while evaluating the body mention the bound variables: evaluate on
+		// scratch copies and drop them
+		sc, so := cur.clone(), old
+		if old == cur {
+			so = sc
+		} else {
+			so = old.clone()
+		}
+		body := e.evalSpecBool(sc, so, n.Body, env)
+		for k, v := range sc.heap {
+			if _, ok := cur.heap[k]; !ok {
+				cur.heap[k] = v
+			}
+		}
+		for k, v := range so.heap {
+			if _, ok := old.heap[k]; !ok {
+				old.heap[k] = v
+			}
+		}
 		for k, o := range saved {
 			if o == nil {
 				delete(env.vars, k)
@@ -599,6 +628,13 @@ func (e *Engine) specCall(cur, old *State, n SCall, env *SpecEnv) Val {
 			a := e.evalSpec(cur, old, n.Args[0], env)
 			b := e.evalSpec(old, old, n.Args[0], env)
 			return e.specBin2(cur, "==", a, b)
+		case "base": // backing array of a slice
+			v := arg(0)
+			if v.K == KSlice {
+				return Val{K: KPtr, T: v.T}
+			}
+			e.specErr("base() expects a slice")
+			return Val{K: KPtr, T: "0"}
 		case "tag":
 			v := arg(0)
 			return Val{K: KOpaque, T: v.X[0]}
@@ -823,12 +859,13 @@ func (e *Engine) validTerm(st *State, v Val) string {
 }
 
 // finish: root function returned. Check postconditions and the frame.
-func (e *Engine) finish(st *State, rs []Val) {
+func (e *Engine) finish(st *State, rs []Val, root *Frame) {
 	if e.con == nil {
 		return
 	}
 	env := e.rootEnv(st, rs)
-	env.fr = nil
+	env.fr = root
+	env.localsOnlyDollar = true
 	e.noAssume = true
 	defer func() { e.noAssume = false }()
 	for k, c := range e.con.get("ensures") {
@@ -867,12 +904,21 @@ func (e *Engine) checkFrame(st *State, c *Clause, env *SpecEnv) {
 		cond   string
 	}
 	var al []allowed
+	external := false
+	foreign := ""
 	for _, loc := range c.Locs {
 		switch x := loc.(type) {
 		case SIdent:
 			if x.Name == "heap" || x.Name == "everything" {
 				return
 			}
+			if x.Name == "external" {
+				external = true
+			}
+			if x.Name == "foreign" && env.pkg != nil {
+				foreign = "F:" + strings.TrimPrefix(env.pkg.Path(), falcoMod+"/") + "."
+			}
+			continue
 		case SSel:
 			base := e.evalSpec(e.entry, e.entry, x.X, env)
 			if x.Name == "all" || x.Name == "_" {
@@ -928,6 +974,9 @@ func (e *Engine) checkFrame(st *State, c *Clause, env *SpecEnv) {
 		e.oblige(st, fmt.Sprintf("%s#assigns:<havoc>", e.fnShort()), "K3", "a callee without contract or frame ran: nothing is known about what it wrote ("+c.Text+")", "false", "return", c.Props)
 	}
 	for _, ph := range st.pending {
+		if ph.eff.All && !(foreign != "" && ph.eff.Except == foreign) {
+			e.oblige(st, fmt.Sprintf("%s#assigns:<foreign havoc>", e.fnShort()), "K3", "a callee in another package without contract ran ("+c.Text+")", "false", "return", c.Props)
+		}
 		for _, k := range sortedKeys(ph.eff.Keys) {
 			touched := false
 			for key := range st.heap {
@@ -937,7 +986,7 @@ func (e *Engine) checkFrame(st *State, c *Clause, env *SpecEnv) {
 			}
 			if !touched {
 				// written by a callee (inferred effect) but never inspected here: cannot be framed
-				okAll := false
+				okAll := (external && keyIsExternal(k)) || (foreign != "" && !strings.HasPrefix(k, foreign))
 				for _, a := range al {
 					if a.idx == "" && strings.HasPrefix(k, a.prefix) {
 						okAll = true
@@ -956,6 +1005,12 @@ func (e *Engine) checkFrame(st *State, c *Clause, env *SpecEnv) {
 			ent = e.heapGet(e.entry, key, e.keySort[key])
 		}
 		if exit == ent {
+			continue
+		}
+		if external && keyIsExternal(key) {
+			continue
+		}
+		if foreign != "" && !strings.HasPrefix(key, foreign) {
 			continue
 		}
 		if strings.HasPrefix(key, "G:") {
